@@ -1,6 +1,8 @@
 import Driver.TraceCmd
+import Driver.MerkleCmd
 
 def main (args : List String) : IO UInt32 :=
   match args with
   | "trace" :: rest => Driver.traceCmd rest
-  | _ => do IO.eprintln "usage: driver <trace|…> …"; pure 2
+  | ["corr", "merkle"] => Driver.lineLoop Driver.merkleLine
+  | _ => do IO.eprintln "usage: driver <trace|corr> …"; pure 2
